@@ -17,7 +17,8 @@ TABLE_CONSTRUCTS = ["moore_offsets_2d", "vn_offsets_2d", "hex_even_offsets", "he
                     "cell_inner_cache", "cell_get_cache", "cell_nbhd_cached_property",
                     # code-level T1 (harness/tables/cellgeom_code.py)
                     "grid_connect_2d_code", "grid_connect_nd_code", "grid_moore_nd_construction", "grid_vn_nd_construction",
-                    "grid_dispatch_skeleton", "cell_connect_skeleton", "cell_nbhd_conditions_code", "cell_nbhd_skeleton"]
+                    "grid_dispatch_skeleton", "cell_connect_skeleton", "cell_nbhd_conditions_code", "cell_nbhd_skeleton",
+                    "vor_export_code", "vor_connect_code", "net_connect_code"]
 RULE = ("histories = one cell space (OrthogonalMooreGrid / OrthogonalVonNeumannGrid with 1-4 axes of sizes 1-4(5), "
         "HexGrid incl. sizes 1 and 2, tori (hex tori only with even size along the parity axis), Network over a simple "
         "graph with isolated nodes, VoronoiGrid over integer-lattice points in general position) + `build` (read every "
@@ -177,6 +178,19 @@ def _queries(rng, ncells, rmax, n, cells=None):
             qs.append(["prop", c])
         if rng.random() < 0.08:
             qs.append(["nbhd", rng.randrange(3), c, rng.choice([0, -1]), rng.random() < 0.5])
+    # CellCollection level: agents enter cells between the queries; the collection of a (possibly cached)
+    # neighbourhood must show the agents that are in its cells at the time it is read
+    if rng.random() < 0.5:
+        pool = list(range(ncells)) if cells is None else list(cells)
+        for aid in range(1, rng.randint(2, 5)):
+            qs.append(["place", aid, rng.choice(pool)])
+        for _ in range(rng.randint(1, 4)):
+            c = rng.choice(pool)
+            r = rng.randint(1, rmax)
+            qs.append(["agents", rng.randrange(3), c, r, rng.random() < 0.5])
+            if rng.random() < 0.5:
+                qs.append(["place", rng.randint(1, 4), rng.choice(pool)])
+                qs.append(["agents", rng.randrange(3), c, r, rng.random() < 0.5])
     rng.shuffle(qs)
     # repetition: re-ask a few of the earlier queries at the end (answers must not have changed)
     for q in rng.sample(qs, min(len(qs), 3)):
@@ -249,11 +263,14 @@ def _rand_graph(rng, n):
     return edges
 
 
-def _net_case(rng, n=None):
+def _net_case(rng, n=None, directed=False):
     n = n or rng.randint(1, 8)
     edges = _rand_graph(rng, n)
+    if directed and edges and rng.random() < 0.5:
+        # some edges in both directions
+        edges += [[v, u] for u, v in rng.sample(edges, max(1, len(edges) // 3))]
     ops = [["build"]] + _queries(rng, n, min(n, 4) + 1, rng.randint(2, 6))
-    return {"space": {"kind": "net", "n": n, "edges": edges}, "ops": ops}
+    return {"space": {"kind": "dnet" if directed else "net", "n": n, "edges": edges}, "ops": ops}
 
 
 def _rand_points(rng, n, lim=20):
@@ -310,6 +327,10 @@ def gen_cases(rng, tier):
         cases.append(_net_case(rng, n))
     for _ in range(60 if quick else 2500):
         cases.append(_net_case(rng))
+    # 3b. directed graphs: outside the statement's quantifier (simple undirected graphs); connections = successors,
+    #     neighbourhoods = balls of directed hops, no symmetry demanded
+    for _ in range(15 if quick else 300):
+        cases.append(_net_case(rng, directed=True))
     # 4. Voronoi
     for n in (1, 2, 3, 4):
         cases.append(_vor_case(rng, n))
@@ -358,10 +379,10 @@ def _make_space(sp):
             return OrthogonalVonNeumannGrid(tuple(sp["dims"]), torus=sp["torus"], random=rnd)
         if k == "hex":
             return HexGrid(tuple(sp["dims"]), torus=sp["torus"], random=rnd)
-        if k == "net":
+        if k in ("net", "dnet"):
             import networkx as nx
 
-            g = nx.Graph()
+            g = nx.Graph() if k == "net" else nx.DiGraph()
             g.add_nodes_from(range(sp["n"]))
             g.add_edges_from([tuple(e) for e in sp["edges"]])
             return Network(g, random=rnd)
@@ -371,7 +392,7 @@ def _make_space(sp):
 
 
 _CLS = {"moore": "OrthogonalMooreGrid", "vn": "OrthogonalVonNeumannGrid", "hex": "HexGrid", "net": "Network",
-        "vor": "VoronoiGrid"}
+        "dnet": "Network", "vor": "VoronoiGrid"}
 
 
 def _key_code(kind, key):
@@ -380,7 +401,7 @@ def _key_code(kind, key):
         for x in key:
             acc = acc * 3 + int(x) + 1
         return acc
-    if kind == "net":
+    if kind in ("net", "dnet"):
         return int(key)
     return int(key[0]) * 1000 + int(key[1])
 
@@ -412,11 +433,12 @@ def _check_connections(sp, space, cells, idx, failures, opi):
                                          f"(wrapped on a torus, absent beyond the edge), i.e. "
                                          f"{ {k: coords[v] for k, v in sorted(e.items())} }"})
                 break
-    elif kind == "net":
+    elif kind in ("net", "dnet"):
         adj = {u: set() for u in range(sp["n"])}
         for u, v in sp["edges"]:
             adj[u].add(v)
-            adj[v].add(u)
+            if kind == "net":
+                adj[v].add(u)
         for i, c in enumerate(cells):
             if c.coordinate != i:
                 failures.append({"key": "C07/Network/cells/wrong-coordinates", "op": opi, "what": f"cell #{i} is node {c.coordinate}"})
@@ -441,8 +463,8 @@ def _check_connections(sp, space, cells, idx, failures, opi):
                                  "what": f"VoronoiGrid({sp['pts']}): centroid {i} is connected to {sorted(got[i].values())}, "
                                          f"the Delaunay edges of the centroids join it to {sorted(e.values())}"})
                 break
-    # symmetry (the geometry is symmetric in every generated space)
-    for i in got:
+    # symmetry (the geometry is symmetric in every generated space but the directed networks)
+    for i in (got if kind != "dnet" else []):
         for k, t in got[i].items():
             if t >= 0 and i not in got[t].values():
                 failures.append({"key": f"C07/{cls}/connections/asymmetric", "op": opi,
@@ -454,8 +476,8 @@ def _descr(sp):
     k = sp["kind"]
     if k in ("moore", "vn", "hex"):
         return f"({tuple(sp['dims'])}, torus={sp['torus']})"
-    if k == "net":
-        return f"(nodes 0..{sp['n'] - 1}, edges {sp['edges']})"
+    if k in ("net", "dnet"):
+        return f"({'directed, ' if k == 'dnet' else ''}nodes 0..{sp['n'] - 1}, edges {sp['edges']})"
     return f"({sp['pts']})"
 
 
@@ -551,6 +573,10 @@ def run_impl(case):
     cells = list(space._cells.values())
     idx = {id(c): i for i, c in enumerate(cells)}
     built = False
+    import mesa
+
+    model = mesa.Model(seed=1)
+    agents, agent_id, loc = {}, {}, {}
     obs, failures, ops_for_model = [], [], []
     conn = [[idx.get(id(v), -1) for v in c.connections.values()] for c in cells]
     nconn = sum(len(x) for x in conn)
@@ -575,9 +601,13 @@ def run_impl(case):
                     ops_for_model.append(["cert", []])
                     continue
                 tris = [[int(v) for v in t] for t in space.triangulation.export_triangles()]
-                ops_for_model.append(["cert", tris])
+                full = [[int(v) for v in t] for t in space.triangulation.triangles]
+                ops_for_model.append(["cert", full])
                 edges = sorted({min(a, b) * 1000 + max(a, b) for t in tris for a, b in itertools.combinations(t, 2)})
-                obs.append([1] + edges)
+                o = [1] + edges + [-8]
+                for i, c in enumerate(cells):
+                    o += [-5] + sorted(_key_code("vor", k) * 1000000 + idx.get(id(v), -1) for k, v in c.connections.items())
+                obs.append(o)
                 pts = [tuple(p) for p in sp["pts"]]
                 bad = [t for t in tris if len(set(t)) != 3 or not all(0 <= v < len(pts) for v in t)
                        or _orient(*(pts[v] for v in t)) == 0
@@ -591,11 +621,57 @@ def run_impl(case):
                                                 if bad else f"their edges {sorted(have)} are not the Delaunay edges {sorted(want)}")})
                 continue
             ops_for_model.append(op)
-            c = op[2] if kind == "nbhd" else op[1]
+            c = op[2] if kind in ("nbhd", "agents", "place") else op[1]
             if not built or not (0 <= c < len(cells)):
                 obs.append([-2])
                 continue
             cell = cells[c]
+            if kind == "place":
+                aid = op[1]
+                if aid not in agents:
+                    from mesa.discrete_space import CellAgent
+
+                    agents[aid] = CellAgent(model)
+                    agent_id[id(agents[aid])] = aid
+                agents[aid].cell = cell
+                loc[aid] = c
+                got = [agent_id.get(id(a), -1) for a in cell.agents]
+                obs.append([1 if len(set(got)) != len(got) else 0] + sorted(got))
+                exp = sorted(a for a, w in loc.items() if w == c)
+                if sorted(got) != exp or agents[aid].cell is not cell:
+                    failures.append({"key": "C07/Cell/agents/not-the-agents-that-entered", "op": opi,
+                                     "what": f"{cls} {_descr(sp)}: after agent {aid} entered cell #{c}, cell.agents = {sorted(got)}, "
+                                             f"the agents whose last cell is #{c} are {exp}"})
+                continue
+            if kind == "agents":
+                _, form, _, r, ic = op
+                try:
+                    coll = cell.get_neighborhood(r, ic) if form == 0 else (
+                        cell.get_neighborhood(radius=r, include_center=ic) if form == 1 else cell.get_neighborhood(r, include_center=ic))
+                except ValueError:
+                    if r < 1:
+                        obs.append([-1, E_RADIUS])
+                        continue
+                    raise
+                got = [agent_id.get(id(a), -1) for a in coll.agents]
+                ccells = [idx.get(id(x), -1) for x in coll.cells]
+                obs.append([len(coll), 1 if len(set(got)) != len(got) else 0] + sorted(got))
+                if r < 1:
+                    continue
+                ball = _ball(conn, c, r)
+                expc = (ball - {c}) | ({c} if ic else set())
+                expa = sorted(a for a, w in loc.items() if w in expc)
+                call = f"get_neighborhood(radius={r}, include_center={ic})"
+                if len(coll) != len(expc) or set(ccells) != expc or [idx.get(id(x), -1) for x in coll] != ccells:
+                    failures.append({"key": "C07/CellCollection/cells/not-the-neighbourhood", "op": opi,
+                                     "what": f"{cls} {_descr(sp)}, cell #{c}: {call} has len {len(coll)}, .cells = {sorted(ccells)}; "
+                                             f"the neighbourhood is {sorted(expc)}"})
+                elif sorted(got) != expa or any(sorted(agent_id.get(id(a), -1) for a in coll[x]) != sorted(a for a, w in loc.items() if w == idx[id(x)])
+                                                for x in coll.cells):
+                    failures.append({"key": "C07/CellCollection/agents/not-the-agents-in-the-cells", "op": opi,
+                                     "what": f"{cls} {_descr(sp)}, cell #{c}: {call}.agents = {sorted(got)}; the agents now in the cells "
+                                             f"{sorted(expc)} of the neighbourhood are {expa} (agent -> cell: {loc})"})
+                continue
             if kind == "nbhd":
                 _, form, _, r, ic = op
                 try:
@@ -666,8 +742,8 @@ def _space_term(sp):
         return f"SOrth {L.b(k == 'moore')} {_zl(sp['dims'])} {L.b(sp['torus'])}"
     if k == "hex":
         return f"SHex {_zl(sp['dims'])} {L.b(sp['torus'])}"
-    if k == "net":
-        return f"SNet {L.z(sp['n'])} {L.lst([L.zpair(e) for e in sp['edges']])}"
+    if k in ("net", "dnet"):
+        return f"{'SNet' if k == 'net' else 'SDNet'} {L.z(sp['n'])} {L.lst([L.zpair(e) for e in sp['edges']])}"
     return f"SVor {L.lst([L.zpair(p) for p in sp['pts']])}"
 
 
@@ -681,6 +757,10 @@ def coq_case(case):
         elif op[0] == "cert":
             tris = op[1] if len(op) > 1 else []
             ops.append("Cert " + L.lst([f"({L.z(t[0])}, {L.z(t[1])}, {L.z(t[2])})" for t in tris]))
+        elif op[0] == "place":
+            ops.append(f"Place {L.z(op[1])} {L.z(op[2])}")
+        elif op[0] == "agents":
+            ops.append(f"NbhdAgents {L.z(op[1])} {L.z(op[2])} {L.z(op[3])} {L.b(op[4])}")
         elif op[0] == "nbhd":
             ops.append(f"Nbhd {L.z(op[1])} {L.z(op[2])} {L.z(op[3])} {L.b(op[4])}")
         else:
